@@ -61,7 +61,7 @@ class ScopeMetrics:
 
         freeze(self)
 
-        if completion := completion:
+        if completion is not None:
             metrics: Self = self
             if iscoroutinefunction(completion):
 
